@@ -412,35 +412,40 @@ def r6(ctx):
 
 
 def r7(ctx):
+    """Op::from_with_not(text, not) = Op::negate(Op::from(text)) when `not` is set and Op::from(text) otherwise: evaluated
+    (finite interpreter, crate calls interpreted) on a spelling of every operator family and on a non-operator word"""
+    import interp
     hir = ctx.anchor_hir(FROM_WITH_NOT)
-    calls = calls_to(hir, NEGATE)
-    ok = False
-    for c in calls:
-        for g in guards_of(hir, c) or []:
-            if g[0] == "match":
-                # arm `Some(op) if not`
-                pass
-        ok = True
-    # the guard must mention the boolean parameter positively
-    params = [p["name"] for p in ctx.prog.fn(FROM_WITH_NOT)["params"] if p["k"] == "Bind"]
-    flag = params[-1] if params else "not"
-    guard_ok = False
-    for m in find_matches(hir):
-        for a in match_arms(m):
-            if a["guard"] is not None and calls_to(a["body"], NEGATE):
-                g = peel(a["guard"], methods=False)
-                if g["k"] == "Path" and g.get("name") == flag:
-                    guard_ok = True
-    for x in walk_exprs(hir):
-        if x["k"] == "If" and calls_to(x["t"], NEGATE):
-            g = peel(x["c"], methods=False)
-            if g["k"] == "Path" and g.get("name") == flag:
-                guard_ok = True
-    ctx.covered("infix `not <op>` application in Op::from_with_not", 1, distinct_keys=[FROM_WITH_NOT])
-    ctx.obligation(ok and guard_ok)
-    if not (ok and guard_ok):
+    ps = ctx.prog.fns[FROM_WITH_NOT]["params"]
+    fh = ctx.anchor_hir("operators::Op::from")
+    fps = ctx.prog.fns["operators::Op::from"]["params"]
+    nh = ctx.anchor_hir(NEGATE)
+    nps = ctx.prog.fns[NEGATE]["params"]
+    n = 0
+    ok, why = len(ps) == 2, "signature changed"
+    if ok:
+        for text in ("=", "ne", "===", "gt", "<=", "=~", "like", "notlike", "between", "in", "exists", "frobnicate"):
+            for flag in (False, True):
+                try:
+                    base = interp.Interp(prog=ctx.prog).run(fh, {fps[0]["id"]: text})
+                    got = interp.Interp(prog=ctx.prog).run(hir, {ps[0]["id"]: text, ps[1]["id"]: flag})
+                    want = base
+                    if flag and isinstance(base, interp.V) and base.name == "Option::Some":
+                        want = interp.some(interp.Interp(prog=ctx.prog).run(nh, {nps[0]["id"]: base.args[0]}))
+                except interp.Undecided as e:
+                    ok, why = False, "cannot evaluate: %s" % e
+                    break
+                n += 1
+                if got != want:
+                    ok, why = False, "from_with_not(%r, %s) = %s, expected %s" % (text, flag, got, want)
+                    break
+            if not ok:
+                break
+    ctx.covered("infix `not <op>`: Op::from_with_not evaluated on 12 words x not / plain", n, distinct_keys=[FROM_WITH_NOT], exhaustive=True)
+    ctx.obligation(ok)
+    if not ok:
         ctx.violation("from_with_not", ctx.where(FROM_WITH_NOT),
-                      "Op::from_with_not must apply Op::negate exactly when its `not` flag is set")
+                      "Op::from_with_not must apply Op::negate exactly when its `not` flag is set: %s" % why)
 
 
 RULES = [
